@@ -129,7 +129,11 @@ def struct_ : Dec WStruct := fun bs =>
       | some (n, r) =>
         match many n dim r with
         | none => none
-        | some (ds, r) => some (⟨version, nextId, ds⟩, r)
+        | some (ds, r) =>
+          -- V1 stores no identifier counter: the reader recomputes it as `max(id) + 1` with checked arithmetic
+          -- (an identifier without a successor in `usize` is a `ConversionFailed`)
+          if version = 0 ∧ ds.any (fun d => d.attrs.any (fun a => decide (2 ^ 64 ≤ a.id + 1))) then none
+          else some (⟨version, nextId, ds⟩, r)
 
 /-! ## keys -/
 
